@@ -481,6 +481,8 @@ void verif_enumerate(verif::Ctx &ctx)
     std::map<std::string, std::string> unsupported;  // stable set of constructs the DSL rejects
     for (int n = 2; n <= sp.max_nodes; ++n)
     {
+        // thorough: programs of 5 statements over a reduced alphabet (the full one is beyond reach: ~10^9 runs), T=2
+        if (th && n == 5) { sp.kinds = {SRC, F1, F2, ACC, SUML, NEST}; sp.max_sources = 2; }
         std::vector<Stmt> cur;
         auto process = [&](const std::vector<Stmt> &st, bool passive_variant) {
             if (!ctx.next_is_mine()) return;
@@ -492,7 +494,7 @@ void verif_enumerate(verif::Ctx &ctx)
             // histories: every tick pattern of every source over `cycles` (value masks for bool sources: 2 fixed patterns)
             std::vector<int> srcs;
             for (std::size_t i = 0; i < st.size(); ++i) if (st[i].kind == SRC || st[i].kind == BSRC) srcs.push_back(static_cast<int>(i));
-            const int cyc = ((!th && n == sp.max_nodes) || passive_variant) ? 2 : sp.cycles;  // quick: the largest programs get T=2, smaller ones T=3
+            const int cyc = ((!th && n == sp.max_nodes) || (th && n == 5) || passive_variant) ? 2 : sp.cycles;  // quick: the largest programs get T=2, smaller ones T=3
             const unsigned per = 1u << cyc;
             std::uint64_t nh = 1;
             for (std::size_t i = 0; i < srcs.size(); ++i) nh *= per;
